@@ -139,10 +139,14 @@ Definition into_f64 (q : Q) : fl :=
   let p := fl_div (as_f64 (q_num_abs r)) (as_f64 (q_den r)) in
   if q_neg r then fl_neg p else p.
 
-(* ---- BigRat::from_f64 (bigrat.rs:200) ----
-   negative = f < 0.0 (false for NaN and for -0.0);
-   i = (|f| * 2^64) as u128   -- saturating, NaN -> 0;
-   num = (i mod 2^64) + (i / 2^64) * (2^64 - 1);  den = 2^64 - 1.          *)
+(* ---- BigRat::from_f64 (bigrat.rs:207, since fix commit d752faf) ----
+   non-finite f                 -> Err ValueTooLarge   (EOther on the wire)
+   negative = f < 0.0 (false for -0.0)
+   |f| >= 2^64                  -> the integer mantissa * 2^exponent, exactly
+   otherwise (the old path)     -> i = (|f| * 2^64) as u128;
+        num = (i mod 2^64) + (i / 2^64) * (2^64 - 1);  den = 2^64 - 1.
+   [from_f64_old] is the function before that commit (saturating cast for
+   every input, NaN -> 0): kept as documentation of the repaired defect.   *)
 
 Definition u128_max : N := 2 ^ 128 - 1.
 Definition u64_max : N := 2 ^ 64 - 1.
@@ -164,7 +168,7 @@ Definition fl_is_neg (x : fl) : bool :=
   | FFin s m _ => s && negb (m =? 0)
   end.
 
-Definition from_f64_parts (x : fl) : bool * N * N :=
+Definition from_f64_parts_old (x : fl) : bool * N * N :=
   let i := f64_to_u128_scaled x in
   let part1 := i mod 2 ^ 64 in
   let part2 := i / 2 ^ 64 in
@@ -176,10 +180,10 @@ Definition mkQ (neg : bool) (n d : N) : Q :=
   | Npos p => Qmake (if neg then (- Z.of_N n)%Z else Z.of_N n) p
   end.
 
-Definition from_f64 (x : fl) : Q :=
-  let '(s, n, d) := from_f64_parts x in mkQ s n d.
+Definition from_f64_old (x : fl) : Q :=
+  let '(s, n, d) := from_f64_parts_old x in mkQ s n d.
 
-(* the saturation classes the property statement does not allow *)
+(* magnitude 2^64 or more, infinite, or NaN: what the old cast could not take *)
 Definition fl_saturates (x : fl) : bool :=
   match x with
   | FNaN => true
@@ -187,12 +191,30 @@ Definition fl_saturates (x : fl) : bool :=
   | FFin _ m e => 2 ^ 64 <=? (if (0 <=? e)%Z then m * 2 ^ Z.to_N e else m / 2 ^ Z.to_N (- e))
   end.
 
+Definition from_f64_parts (x : fl) : res (bool * N * N) :=
+  match x with
+  | FNaN | FInf _ => Err EOther                       (* FendError::ValueTooLarge *)
+  | FFin s m e =>
+    if fl_saturates x then
+      (* an f64 of this size is an integer: exponent field - 1075 >= 12 *)
+      if (0 <=? e)%Z then Ok (fl_is_neg x, m * 2 ^ Z.to_N e, 1)
+      else Ok (fl_is_neg x, m, 2 ^ Z.to_N (- e))      (* not reached from a bit pattern *)
+    else Ok (from_f64_parts_old x)
+  end.
+
+Definition from_f64 (x : fl) : res Q :=
+  do p <- from_f64_parts x;
+  let '(s, n, d) := p in Ok (mkQ s n d).
+
 (* ---- the bridge: BigRat -> f64 -> libm -> f64 -> BigRat ---- *)
 
 Definition oracle := N -> N.      (* libm: bit pattern -> bit pattern *)
 
-Definition bridge (F : oracle) (q : Q) : Q :=
+Definition bridge (F : oracle) (q : Q) : res Q :=
   from_f64 (fl_of_bits (F (fl_bits (into_f64 q)))).
+
+Definition bridge_old (F : oracle) (q : Q) : Q :=
+  from_f64_old (fl_of_bits (F (fl_bits (into_f64 q)))).
 
 (* ---- BigUint::log2 (biguint.rs:142) ---- *)
 
